@@ -320,6 +320,21 @@ theorem code_adapter_finalize_leaves_no_files (kind : SlotKind) (limit : Option 
   have h := (sim_reach (mkCfg kind limit loc slotId units) rfl nEnds evs).finv
   rw [tr_TimeCachingAdapter__finalize, toE_ofE, finalizeFs_spec _ _ _ _ h]
 
+/-- **C10, eviction on the code**: after any history of a slot, the translated `_clear_cached_data` for *any* time
+    succeeds (every file it removes still exists), leaves exactly the entries the RAM-only eviction (`clear`) leaves,
+    and the memory account keeps counting exactly the payloads held in RAM -/
+theorem code_adapter_eviction_ok (kind : SlotKind) (limit : Option Int) (loc : Option String)
+    (slotId units nEnds : Nat) (evs : List SP.Ev) (m : Int) :
+    let s := finalS (mkCfg kind limit loc slotId units) (initS nEnds) evs
+    ∃ total' fs', Tr.TimeCachingAdapter__clear_cached_data_files (ofE s.data) s.total s.fs m isFileS nbytesS fsRemoveS =
+        .ok (total', ofE (TA.clear s.data m), fs') ∧
+      total' - ramBytes (TA.clear s.data m) = s.total - ramBytes s.data := by
+  intro s
+  have h := (sim_reach (mkCfg kind limit loc slotId units) rfl nEnds evs).finv
+  obtain ⟨total', fs', he, _, hacc⟩ := evictS_spec _ _ s.data s.total s.fs m h
+  refine ⟨total', fs', ?_, hacc⟩
+  rw [tr_TimeCachingAdapter__clear_cached_data_files, toE_ofE, he]
+
 /-- **C10, files are written exactly when the limit says so, on the code**: the translated `_pack` writes a file iff
     `memory_limit` is set, non-negative and smaller than the memory account plus the new payload; the file is the next
     one under the configured location, and a payload kept in RAM adds its size to the account -/
